@@ -121,8 +121,10 @@ class Soap12(Soap11):
             subelts[0] = code
 
         if isinstance(inst.detail, dict):
-            _append(subelts, E('{%s}Detail' % self.ns_soap_env,
-                                               root_dict_to_etree(inst.detail)))
+            # as in Soap11: the detail dict holds the children of the Detail
+            # element, any number of them.
+            _append(subelts, root_dict_to_etree(
+                          {'{%s}Detail' % self.ns_soap_env: inst.detail}))
 
         elif inst.detail is None:
             pass
